@@ -1335,6 +1335,9 @@ func (s *Sim) issue(c *clientState, args []B, node int, idx int, final, probe bo
 
 func (s *Sim) noteCommand(args []B) {
 	if len(args) == 0 {
+		s.fault("mgmt-empty-command")
+		s.mgmtClass, s.mgmtStep, s.mgmtNoChange = "empty-command", s.step, true
+		s.lastCmdClass = "empty-command"
 		return
 	}
 	name := strings.ToLower(string(args[0]))
